@@ -43,7 +43,9 @@ MStep ==
         ELSE
           /\ UNCHANGED <<total, good>>
           /\ CASE e.ev = "PeerPush" ->
-                    /\ live' = live
+                    \* a deadline beyond the trace's integers (2^64 ms away, logged as 2 000 000 000) cannot be replayed: the
+                    \* scenario is not judged from here on
+                    /\ live' = ~(e.item.kind = "req" /\ e.item.dl >= 2000000000)
                     /\ S' = IF e.item.kind = "req" THEN F_PeerReq(S, e.item.id, e.item.dl) ELSE F_PeerCancel(S, e.item.id)
                [] e.ev = "PeerEof" -> S' = F_PeerEof(S) /\ live' = live
                [] e.ev = "Tick" -> S' = F_Tick(S, e.d) /\ live' = live
